@@ -27,19 +27,46 @@ def concretize(v, lo, hi):
     raise AssertionError('out of range')
 
 
+def multiset_equal(a, b):
+    if len(a) != len(b):
+        return False
+    used = [False] * len(b)
+    for x in a:
+        hit = False
+        for j, y in enumerate(b):
+            if not used[j] and len(x) == len(y) and all(row_eq(p, q) for p, q in zip(x, y)):
+                used[j] = True
+                hit = True
+                break
+        if not hit:
+            return False
+    return True
+
+
+def row_eq(p, q):
+    if isinstance(p, str) or isinstance(q, str):
+        return isinstance(p, str) and isinstance(q, str) and p == q
+    return p == q
+
+
 def mk_join(kind, tier='quick'):
-    def body(env, l0, l1, l2, r0, r1, fill, **kw):
+    def body(env, l0, l1, l2, r0, r1):
+        from vf import rt
+        lk = [concretize(x, 0, 2) for x in (l0, l1, l2)]
+        rk = [concretize(x, 0, 2) for x in (r0, r1)]
+        return rt.untraced(lambda: run(env, lk, rk))
+
+    def run(env, lk, rk):
         sf = env.sf
-        lk = [concretize(x, 0, 1) for x in (l0, l1, l2)]
-        rk = [concretize(x, 0, 1) for x in (r0, r1)]
-        lp = [kw['p0'], kw['p1'], kw['p2']]
-        rp = [kw['q0'], kw['q1']]
+        fill = -1
+        lp = [101, 102, 103]     # payloads are distinct constants: they identify the source row of every output cell
+        rp = [201, 202]
         left = sf.Frame.from_items((('k', env.array(lk, 'int64')), ('lv', env.array(lp, 'int64'))), index=[10, 11, 12])
         right = sf.Frame.from_items((('k2', env.array(rk, 'int64')), ('rv', env.array(rp, 'int64'))), index=[20, 21])
         fn = getattr(left, 'join_' + kind)
         r = fn(right, left_columns='k', right_columns='k2', fill_value=fill)
         cols = r.columns.values.tolist()
-        got = sorted([[env.obs(v) for v in row] for row in r.values.tolist()], key=lambda t: [str(x) for x in t])
+        got = [[env.obs(v) for v in row] for row in r.values.tolist()]
         # reference: nested loop
         out = []
         matched_l, matched_r = set(), set()
@@ -56,12 +83,13 @@ def mk_join(kind, tier='quick'):
             for j in range(2):
                 if j not in matched_r:
                     out.append([fill, fill, rk[j], rp[j]])
-        exp = sorted(out, key=lambda t: [str(x) for x in t])
-        return [env.obs(cols), got], [['k', 'lv', 'k2', 'rv'], exp]
-    return Cond(f'join_{kind}', [('l0', 'int'), ('l1', 'int'), ('l2', 'int'), ('r0', 'int'), ('r1', 'int'), ('fill', 'int')] + [(p, 'int') for p in ('p0', 'p1', 'p2', 'q0', 'q1')], body,
-            ranges={p: (0, 1) for p in ('l0', 'l1', 'l2', 'r0', 'r1')},
+        exp = out
+        # rows are compared as a multiset without looking at symbolic payload ORDER: match each expected row to a distinct observed row
+        return [env.obs(cols), multiset_equal(got, exp)], [['k', 'lv', 'k2', 'rv'], True]
+    return Cond(f'join_{kind}', [('l0', 'int'), ('l1', 'int'), ('l2', 'int'), ('r0', 'int'), ('r1', 'int')], body,
+            ranges={p: (0, 2) for p in ('l0', 'l1', 'l2', 'r0', 'r1')},
             functions=['Frame._join'],
-            bounds='3-row left and 2-row right frame; key values symbolic in 0..1 (1:1 / 1:n / n:m / no match chosen by the solver); payloads and fill value UNBOUNDED symbolic ints',
+            bounds='3-row left and 2-row right frame; key values symbolic in 0..2 (1:1 / 1:n / n:m / no match chosen by the solver); payloads distinct constants (row identity), fill -1',
             route=f'Frame.join_{kind}: exactly the matching row pairs (plus unmatched rows of the preserved side, filled)', tier=tier, timeout=400)
 
 
@@ -110,11 +138,17 @@ _add(Cond('relabel_shift_in_out', [(p, 'int') for p in ('a0', 'a1', 'b0', 'b1')]
         route='relabel_shift_in / relabel_shift_out move a column into the index and back', timeout=300))
 
 
-def body_pivot(env, i0, i1, i2, c0, c1, c2, v0, v1, v2, fill):
-    sf = env.sf
+def body_pivot(env, i0, i1, i2, c0, c1, c2):
+    from vf import rt
     ik = [concretize(x, 0, 1) for x in (i0, i1, i2)]
     ck = [concretize(x, 0, 1) for x in (c0, c1, c2)]
-    vs = [v0, v1, v2]
+    return rt.untraced(lambda: run_pivot(env, ik, ck))
+
+
+def run_pivot(env, ik, ck):
+    sf = env.sf
+    vs = [1, 2, 4]     # powers of two: every sum identifies exactly which source rows it aggregates
+    fill = -1
     f = sf.Frame.from_items((('i', env.array(ik, 'int64')), ('c', env.array(ck, 'int64')), ('v', env.array(vs, 'int64'))))
     p = f.pivot('i', 'c', 'v', fill_value=fill)
     idx = p.index.values.tolist()
@@ -129,14 +163,20 @@ def body_pivot(env, i0, i1, i2, c0, c1, c2, v0, v1, v2, fill):
     return [got, len(idx), len(cols)], [sorted(exp), len(set(ik)), len(set(ck))]
 
 
-_add(Cond('pivot_sum', [(p, 'int') for p in ('i0', 'i1', 'i2', 'c0', 'c1', 'c2', 'v0', 'v1', 'v2', 'fill')], body_pivot,
+_add(Cond('pivot_sum', [(p, 'int') for p in ('i0', 'i1', 'i2', 'c0', 'c1', 'c2')], body_pivot,
         ranges={p: (0, 1) for p in ('i0', 'i1', 'i2', 'c0', 'c1', 'c2')},
         functions=['Frame.pivot'],
-        bounds='3-row frame; index-field and column-field values symbolic in 0..1; data values and fill UNBOUNDED symbolic ints; aggregation = default (sum)',
+        bounds='3-row frame; index-field and column-field values symbolic in 0..1; data values 1, 2, 4 (sums identify their source rows), fill -1; aggregation = default (sum)',
         route='Frame.pivot: one row per distinct index value, one column per distinct column value, each cell the sum of exactly the matching source rows, fill elsewhere', timeout=400))
 
 
 def body_stack_unstack(env, a0, a1, b0, b1):
+    from vf import rt
+    a0, a1, b0, b1 = [concretize(v, 0, 2) for v in (a0, a1, b0, b1)]
+    return rt.untraced(lambda: run_stack_unstack(env, a0, a1, b0, b1))
+
+
+def run_stack_unstack(env, a0, a1, b0, b1):
     sf = env.sf
     f = sf.Frame.from_items((('x', env.array([a0, a1], 'int64')), ('y', env.array([b0, b1], 'int64'))), index=[10, 11])
     s = f.pivot_stack()
@@ -149,7 +189,7 @@ def body_stack_unstack(env, a0, a1, b0, b1):
     return got, exp
 
 
-_add(Cond('pivot_stack_unstack_roundtrip', [(p, 'int') for p in ('a0', 'a1', 'b0', 'b1')], body_stack_unstack,
+_add(Cond('pivot_stack_unstack_roundtrip', [(p, 'int') for p in ('a0', 'a1', 'b0', 'b1')], body_stack_unstack, ranges={p: (0, 2) for p in ('a0', 'a1', 'b0', 'b1')},
         functions=['Frame.pivot_stack', 'Frame.pivot_unstack'],
-        bounds='2x2 frame with UNBOUNDED symbolic cells',
+        bounds='2x2 frame, cells symbolic in 0..2 (equal and distinct cells)',
         route='pivot_stack followed by pivot_unstack restores every cell at its labels', timeout=400))
